@@ -48,6 +48,7 @@ func init() {
 	rt.Register("H_C17_int", H_C17_int)
 	rt.Register("H_C17_digits", H_C17_digits)
 	rt.Register("H_C17_strctx", H_C17_strctx)
+	rt.Register("H_C17_namectx", H_C17_namectx)
 	rt.Register("H_C17_expint", H_C17_expint)
 	rt.Register("H_C17_str", H_C17_str)
 	rt.Register("H_C17_float", H_C17_float)
@@ -65,6 +66,7 @@ func init() {
 func H_C17_int()    { parser.VH_C17_int(rt.Param(0)) }
 func H_C17_digits() { parser.VH_C17_digits(rt.Param(0), rt.Param(1), rt.Param(2)) }
 func H_C17_strctx() { parser.VH_C17_strctx() }
+func H_C17_namectx() { parser.VH_C17_namectx() }
 func H_C17_expint() { parser.VH_C17_expint() }
 func H_C17_str()    { parser.VH_C17_str() }
 func H_C17_float()  { parser.VH_C17_float() }
